@@ -123,6 +123,60 @@ static std::string random_class_fen(const ClassTpl& c, bool strong_white, std::m
     return f;
 }
 
+// attacking material against a king on the rim (mating nets, checks and captures everywhere): for the mate-announcement pools
+std::string random_attack_fen(std::mt19937_64& rng)
+{
+    static const char* strong[] = {"QR", "QRN", "QB", "RRN", "QN", "QRB", "RR", "QQ", "RBN", "QRP"};
+    static const char* weak[] = {"R", "RN", "N", "NN", "RB", "B", "RP", "NP", "RNP", "Q"};
+    for (int attempt = 0; attempt < 50; ++attempt)
+    {
+        char b[64];
+        memset(b, 0, sizeof b);
+        bool strong_white = rng() % 2;
+        // weak king on the rim
+        int rim[28], nr = 0;
+        for (int s = 0; s < 64; ++s) if (s < 8 || s >= 56 || s % 8 == 0 || s % 8 == 7) rim[nr++] = s;
+        int wk = rim[rng() % nr];
+        b[wk] = strong_white ? 'k' : 'K';
+        auto place = [&](char ch, bool near) {
+            for (int t = 0; t < 200; ++t)
+            {
+                int s = int(rng() % 64);
+                if (b[s]) continue;
+                if ((ch == 'P' || ch == 'p') && (s < 8 || s >= 56)) continue;
+                if (near && std::max(std::abs(s % 8 - wk % 8), std::abs(s / 8 - wk / 8)) > 4) continue;
+                b[s] = ch;
+                return true;
+            }
+            return false;
+        };
+        bool ok = place(strong_white ? 'K' : 'k', false);
+        for (const char* q = strong[rng() % 10]; *q && ok; ++q) ok = place(strong_white ? *q : (char)tolower(*q), rng() % 3 != 0);
+        for (const char* q = weak[rng() % 10]; *q && ok; ++q) ok = place(strong_white ? (char)tolower(*q) : *q, rng() % 2);
+        if (!ok) continue;
+        std::string f;
+        for (int r = 7; r >= 0; --r)
+        {
+            int e = 0;
+            for (int k = 0; k < 8; ++k)
+            {
+                char ch = b[r * 8 + k];
+                if (!ch) e++;
+                else { if (e) f += char('0' + e); e = 0; f += ch; }
+            }
+            if (e) f += char('0' + e);
+            if (r) f += '/';
+        }
+        f += (rng() % 4 ? (strong_white ? " w" : " b") : (strong_white ? " b" : " w"));
+        f += " - - 0 1";
+        Position p(f);
+        if (distance(p.piece_position(W_KING), p.piece_position(B_KING)) <= 1) continue;
+        if (p.is_in_check(!p.color())) continue;
+        return f;
+    }
+    return "";
+}
+
 // sparse random material for the search pools: kind cycles through the class templates; extra pawns now and then
 std::string random_material_fen(std::mt19937_64& rng, int kind)
 {
